@@ -58,6 +58,15 @@ fn npy_bases(tier: Tier) -> Vec<NpyBase> {
             }
         }
     }
+    // column-major files of shapes for which the layout coincides with row-major (one axis, or all
+    // axes but one of length one): whether or not such a file is accepted undamaged, a damaged one
+    // has the wrong number of values and is invalid under every reading
+    for (i, s) in [vec![5usize], vec![3], vec![1, 4], vec![4, 1], vec![1, 3, 1]].iter().enumerate() {
+        let n: usize = s.iter().product();
+        let (descr, size): (&str, usize) = [("<f8", 8), (">i2", 2), ("<f8", 8), ("<f4", 4), ("<i8", 8)][i];
+        let data: Vec<u8> = (0..n * size).map(|b| (b * 5 + 3) as u8 & 0x3f).collect();
+        v.push(NpyBase { name: format!("numpy-layout fortran-order {descr} v1 shape {s:?}"), bytes: synth(1, &dict_text(descr, true, s, &np), &data), itemsize: size });
+    }
     v
 }
 
